@@ -157,6 +157,7 @@ func CheckC05(c *Ctx) {
 		}
 	}
 	c.recheckContracts(used, "actions/contract", "strategies shift their actions by this indicator's IdlePeriod() and pair its k-th value with snapshot k + IdlePeriod()")
+	c.constructorParameters("actions/constructor", "strategy")
 	c.registryCoverage(analysed)
 	c.actionConstants()
 	c.decoratorHold()
